@@ -5,7 +5,6 @@ from contextvars import Context
 from typing import Any, Callable, Deque, Iterable, Optional, Tuple, cast
 
 from ..compat import call_soon
-from ..tools import deque_pop
 from .schedulingloop import AbstractSchedulingLoop
 from .types import QueueType, TaskAny
 
@@ -39,7 +38,7 @@ class SchedulingLoopHelper(AbstractSchedulingLoop):
     def queue_items(self) -> Iterable[Handle]:
         """Enumerate the scheduled callbacks in the loop.
         The elements are returned in the order they will be called."""
-        return self._queue
+        return list(self._queue)
 
     def queue_find(
         self, key: Callable[[Handle], bool], remove: bool = False
@@ -129,28 +128,30 @@ def is_task_callback(callback: Any) -> bool:
     return name in TASK_CALLBACK_NAMES
 
 
+# A callback can be appended to the ready queue by another thread at any time, using
+# `loop.call_soon_threadsafe()`.  The individual `deque` methods are atomic, but a
+# sequence of them is not, and positions can shift and iteration over a `deque` fails
+# if it is mutated meanwhile.  So we search a snapshot and remove by identity.
+
+
 def queue_find(
     queue: Deque[Handle], key: Callable[[Handle], bool], remove: bool = False
 ) -> Optional[Handle]:
     # search from the end of the queue since this is commonly
     # done for just-inserted callbacks
-    for i, handle in enumerate(reversed(queue)):
+    for handle in reversed(list(queue)):
         if key(handle):
             if remove:
-                popped = deque_pop(queue, len(queue) - i - 1)
-                assert popped is handle
+                queue.remove(handle)
             return handle
     return None
 
 
 def queue_remove(queue: Deque[Handle], in_handle: Handle) -> None:
-    # search from the end
-    for i, handle in enumerate(reversed(queue)):
-        if in_handle is handle:
-            deque_pop(queue, len(queue) - i - 1)
-            break
-    else:
-        raise ValueError("handle not in queue")
+    try:
+        queue.remove(in_handle)
+    except ValueError:
+        raise ValueError("handle not in queue") from None
 
 
 def call_pos(
@@ -166,7 +167,7 @@ def call_pos(
     """
     handle = call_soon(loop, callback, *args, context=context)
     queue = loop._ready  # type: ignore
-    handle2 = queue.pop()
-    assert handle2 is handle
+    # it is normally the last one, but not necessarily, see above
+    queue.remove(handle)
     queue.insert(pos, handle)
     return handle
